@@ -15,11 +15,13 @@ import (
 // C19: two consecutive requests of one subscriber towards a peer; the answer
 // to the first may be prompt, lost, or delayed beyond the 5 s client timer and
 // delivered afterwards (before the second request starts).
-//  (i)  the answer the second request acts on is the answer to the second
-//       request (same CC-Request-Number / rating group);
-//  (ii) the second request completes: a late answer must not leave a handler
-//       blocked under go-diameter's mux read lock, which would make the next
-//       mux.Handle (write lock) block for ever.
+//
+//	(i)  the answer the second request acts on is the answer to the second
+//	     request (same CC-Request-Number / rating group);
+//	(ii) the second request completes: a late answer must not leave a handler
+//	     blocked under go-diameter's mux read lock, which would make the next
+//	     mux.Handle (write lock) block for ever.
+//
 // The transport is the stub of the other accounting harnesses; go-diameter's
 // ServeMux locking is modelled from its source (ServeDIAM: RLock held while
 // the handler runs; Handle: Lock).
